@@ -43,6 +43,9 @@ def dep():
                 {"source": {"href": "https://cdn/x"}, "script": [{"src": "a.js"}, {"src": "b.js", "defer": ""}], "stylesheet": [{"href": "s.css", "media": "all"}]},
                 {"meta": [{"name": "m", "content": "c"}], "head": "<link rel=x>"},
                 {"source": {"package": "htmltools", "subdir": "libtest/testdep"}, "script": {"src": "testdep.js"}, "all_files": True},
+                # no source at all, file names that need percent-encoding
+                {"script": [{"src": "my script%.js"}, {"src": "\u00e9 1.js"}], "stylesheet": [{"href": "a b.css"}]},
+                {"source": {"href": ""}, "script": {"src": "sp ace.js"}},
             ]
         ),
     )
@@ -328,6 +331,15 @@ def _names_body(case, note):
     again_f = h.head_content(*[build(x) for x in fresh])
     check(again_f.head.get_html_string() == r_fresh, "an independent head_content() of the same content is affected by an earlier payload that was changed afterwards", r_fresh, again_f.head.get_html_string())
     check(first.name == again_f.name, "head_content name changed although the content at creation time was the same")
+    # the payload handed over as one TagList object that the caller goes on using
+    tl = h.TagList(*[build(x) for x in fresh])
+    from_list = h.head_content(tl)
+    tl.append("!appended-to-the-callers-list-later!")
+    tl.insert(0, h.Tag("b", "!inserted-later!"))
+    check(from_list.head.get_html_string() == r_fresh, "head_content(<TagList>) changes when the caller's list is changed afterwards", r_fresh, from_list.head.get_html_string())
+    check(from_list.name == again_f.name, "head_content(<TagList>) is named differently from head_content(*items) of the same content", again_f.name, from_list.name)
+    d2 = h.HTMLDocument(from_list, h.head_content(tl), again_f).render()["dependencies"]
+    check(len(d2) == 2 and d2[0].head.get_html_string() == r_fresh, "a document with head_content of a list, of the list after it grew, and of the original content again does not hold exactly two head contents", [x.name for x in d2])
     doc = h.HTMLDocument(h.Tag("div", hp, h.Tag("span", hq)), h.head_content(*[build(x) for x in p])).render()
     heads = [d.head.get_html_string() for d in doc["dependencies"]]
     if rp == rq:
